@@ -1,4 +1,5 @@
 """simrand -- scripted replacement for the global PRNG seen by boltons.iterutils."""
+from simkit.core import Unsimulated
 
 
 class SimRandom:
@@ -22,5 +23,10 @@ class SimRandom:
             self.log.add('draw', v)
         return v
 
+    __call__ = random            # in case the module did ``from random import random``
+
+    def uniform(self, a, b):
+        return a + (b - a) * self.random()
+
     def __getattr__(self, name):
-        raise AttributeError('simrand: random.%s is not simulated' % name)
+        raise Unsimulated('random.%s is not simulated' % name)
